@@ -49,6 +49,10 @@ SENSITIVITY = {
     "r4b": ("seeded/r4b/patch.diff", "C17", ["result-mismatch"], "A: interpolators built on other threads"),
     "r4c": ("seeded/r4c/patch.diff", "C18", ["callback-invariant"], "A: target shape"),
     "r4d": ("seeded/r4d/patch.diff", "C18", ["build-error-changed"], "A: builder decision table"),
+    "r5a": ("seeded/r5a/patch.diff", "C17", ["result-mismatch", "reference-unstable", "entry-point-mismatch"], "A: address reuse after drop"),
+    "r5b": ("seeded/r5b/patch.diff", "C17", ["result-mismatch"], "A via the numeric-type seam + B"),
+    "r5c": ("seeded/r5c/patch.diff", "C18", ["query-element-not-delivered", "error-invented", "error-swallowed", "concurrent-operation-affected"], "B (Miri) pass of C18"),
+    "r5d": ("seeded/r5d/patch.diff", "C18", ["build-invariant"], "A: builder inputs with reversed-stride axis views"),
 }
 
 BENIGN = {
